@@ -25,6 +25,9 @@ func simEnable(schedSeed, auxSeed uint64, yieldThr uint32)
 //go:linkname simDisable runtime.simDisable
 func simDisable() (picks, multi, yields, sites, hash, diverge, spins uint64)
 
+//go:linkname simSetPCT runtime.simSetPCT
+func simSetPCT(depth, steps uint32)
+
 //go:linkname simSetPlayback runtime.simSetPlayback
 func simSetPlayback(p *uint8, n int)
 
@@ -46,6 +49,12 @@ type Sched struct {
 	// Decisions, when non-nil, switches the runtime to scripted playback:
 	// run-length encoded decision vector (see EncodeDecisions).
 	Decisions string `json:"decisions,omitempty"`
+	// PCTDepth > 0 selects PCT-style priority scheduling (random priorities,
+	// highest runs, PCTDepth priority-change points uniform in [1,PCTSteps]
+	// scheduling points) instead of uniform random picks. Decisions are not
+	// recorded in this mode; replay is by seed.
+	PCTDepth uint32 `json:"pct_depth,omitempty"`
+	PCTSteps uint32 `json:"pct_steps,omitempty"`
 }
 
 // Violation is one oracle failure.
@@ -223,6 +232,11 @@ func Run(t *testing.T, sc Sched, wantLog, wantDec bool, body func(e *Env)) Outco
 			}
 		}()
 		simSetSiteTrace(siteTraceFile != "")
+		if sc.Decisions == "" {
+			simSetPCT(sc.PCTDepth, sc.PCTSteps)
+		} else {
+			simSetPCT(0, 0)
+		}
 		simEnable(sc.SchedSeed, sc.AuxSeed, sc.YieldThr)
 		synctest.Test(t, func(t *testing.T) {
 			e.t0 = time.Now()
